@@ -284,6 +284,25 @@ Proof.
   apply andb_true_intro; split; [apply Nat.leb_le; lia | apply Z.ltb_lt; lia].
 Qed.
 
+Lemma window_of_state c s : coupled c s ->
+  match st c with
+  | Probing => Nat.ltb (length (results s)) (cN c) = true
+  | Allowed => full_good_window (cN c) (cMin c) (results s) = true
+  | Blocked => full_bad_window (cN c) (cMin c) (results s) = true
+  end.
+Proof.
+  intros Hc. pose proof Hc as (Hinv & _ & Hw & _). destruct Hinv as (HN & Hs & Hl & Hst).
+  rewrite Hst. unfold state_of.
+  destruct (Nat.ltb_spec (length (window c)) (cN c)) as [Hlt|Hfull].
+  - rewrite Hw, lastn_length in Hlt. apply Nat.ltb_lt. lia.
+  - rewrite Hw, lastn_length in Hfull.
+    destruct (Z.leb_spec (cMin c) (successes c)) as [Hok|Hlow].
+    + unfold full_good_window. rewrite <- Hw.
+      apply andb_true_intro; split; [apply Nat.leb_le; lia | apply Z.leb_le; lia].
+    + unfold full_bad_window. rewrite <- Hw.
+      apply andb_true_intro; split; [apply Nat.leb_le; lia | apply Z.ltb_lt; lia].
+Qed.
+
 Lemma coupled_step c s o : coupled c s ->
   exists s', mon_step (cN c) (cMin c) s o (snd (cstep c o)) = Some s' /\
              coupled (fst (cstep c o)) s'.
@@ -324,7 +343,8 @@ Proof.
       apply andb_prop in Hreset. destruct Hreset as [Hb1 Hb2]. subst b.
       assert (Est : st c = Blocked) by (destruct (st c); try discriminate; reflexivity).
       destruct (success_unblocks_l c Hinv Est) as (H1 & H2 & H3 & H4). cbn zeta in *.
-      rewrite H1. eexists; split; [reflexivity|].
+      rewrite H1. cbn [length]. replace (Nat.ltb 0 (cN c)) with true by (symmetry; apply Nat.ltb_lt; lia).
+      eexists; split; [reflexivity|].
       unfold coupled. split; [exact Hinv'|]. cbn [cur results run probed].
       rewrite H1, H2. repeat split; try reflexivity. discriminate.
     + (* ordinary record: window slides *)
@@ -348,9 +368,21 @@ Proof.
       { intros x r p Hx Hrp. unfold coupled. split; [exact Hinv'|]. cbn [cur results run probed].
         rewrite HN', HR'. split; [exact Hx|]. split; [exact HW'|].
         intros Hbk. apply Hrp. rewrite Hx. exact Hbk. }
+      assert (Hws : forall x, x = st (record_result c b) ->
+                 match x with
+                 | Probing => Nat.ltb (length (results s ++ [b])) (cN c) = true
+                 | Allowed => full_good_window (cN c) (cMin c) (results s ++ [b]) = true
+                 | Blocked => True
+                 end).
+      { intros x Hx.
+        pose proof (window_of_state (record_result c b) (mkMon (results s ++ [b]) x 0 false)) as F.
+        rewrite HN', HM' in F. cbn [results] in F.
+        assert (Hcp : coupled (record_result c b) (mkMon (results s ++ [b]) x 0 false)).
+        { apply Hcpl; [exact Hx|]. intros _. lia. }
+        specialize (F Hcp). rewrite <- Hx in F. destruct x; [exact F|exact F|exact I]. }
       destruct (st (record_result c b)) eqn:Est'.
-      * eexists; split; [reflexivity|]. apply Hcpl; [reflexivity|discriminate].
-      * eexists; split; [reflexivity|]. apply Hcpl; [reflexivity|discriminate].
+      * rewrite (Hws Probing eq_refl). eexists; split; [reflexivity|]. apply Hcpl; [reflexivity|discriminate].
+      * rewrite (Hws Allowed eq_refl). eexists; split; [reflexivity|]. apply Hcpl; [reflexivity|discriminate].
       * (* blocked after the record *)
         assert (Hfb : full_bad_window (cN c) (cMin c) (results s ++ [b]) = true).
         { pose proof (full_bad_window_of_blocked (record_result c b)
